@@ -19,9 +19,55 @@ PROPS = {
     ),
 }
 
+LIFE = dict(name="lifecycle", quick=(6, 700), thorough=(28, 4000))
+VALSET = dict(name="valset", quick=(4, 4000), thorough=(14, 60000))
+PROV_RULE = ("seeded operation sequences against the real provider keeper/msg server/BeginBlock/EndBlock over scripted staking, "
+             "slashing and IBC keepers (create/update/remove consumer, opt-in/out, key assignment, staking changes, blocks); times biased to "
+             "pending deadlines +-1ns; after every operation the model's next state (computed from the implementation's previous state) is "
+             "compared field by field with the implementation's next state and every Spec.Prov clause is evaluated on the implementation state; "
+             "non-trivial = accepted messages and blocks that change a queue")
+PROV_ASSUME = ["A-ATOMIC: a failing message leaves no writes (harness wraps handlers in CacheContext like baseapp)",
+               "A-TIMEKEY: sdk.FormatTimeBytes is order preserving", "scripted environment keepers behave like staking/slashing/IBC (validated only by reading their code)"]
+
+PROPS.update({
+    "C01": dict(streams=[VALSET],
+        rule="seeded random current/next sets, update lists with repeated keys and zero powers; DiffValidators, AccumulateChanges called directly, "
+             "ApplyCCValidatorChanges on a real consumer keeper; non-trivial = both inputs non-empty",
+        fields=r"^(diff|accum|cinit|applycc)\.",
+        assumptions=["public-key string order supplied by the harness (keyorder line) is the order AccumulateChanges sorts by",
+                     "ordered IBC channel (A-IBC-ORDER) for the system-level statement"],
+        trusted=["system-level interleaving (provider epochs x relay schedule) is covered by theorem replication_block over the algebra, not yet by a two-chain stream"]),
+    "C10": dict(streams=[LIFE], rule=PROV_RULE, assumptions=PROV_ASSUME,
+        fields=r"^(create|update|remove|begin)\.|^c\d+\.(phase|spawn|conn|client|genesis|evmin)|^g\.(nextid|spawnq|client2c)",
+        trusted=["sched_inv (initialized <-> scheduled exactly once) is proved only as far as Props/C10 states; it is additionally monitored on every implementation state"]),
+    "C13": dict(streams=[LIFE], rule=PROV_RULE, assumptions=PROV_ASSUME, fields=r"^$",
+        trusted=["frame of per-consumer operations is monitored on the implementation (Spec.Prov.othersUntouched) and follows for the model from get_set_other; byte-level theorems are about the regenerated key tables"]),
+    "C18": dict(streams=[VALSET], fields=r"^accum\.",
+        rule="AccumulateChanges differential run (Go map iteration order is random per run, so every run exercises a different enumeration); regenerated determinism-site table",
+        assumptions=["Go runtime (scheduler, map hashing) is not modelled"],
+        trusted=["replica comparison of whole histories is part of the thorough tier only"]),
+})
+
+EPOCH = dict(name="epoch", quick=(6, 700), thorough=(28, 4000))
+EPOCH_FIELDS = r"^end\.|^c\d+\.(valset|optin|minpow|pend|acks|ps|allow|deny|prio)|^begin\.res"
+PROPS.update({
+    "C02": dict(streams=[EPOCH, LIFE], rule=PROV_RULE + "; epoch stream: powers 1..3 with sub-unit token noise so that power ties at the active-set boundary are frequent; every validator set the implementation computes is judged by Spec.Epoch.c02* from the staking observations",
+        assumptions=PROV_ASSUME + ["A-STK-SORT / A-STK-POS: staking returns bonded, non-jailed validators in power-index order, non-empty"], fields=EPOCH_FIELDS),
+    "C03": dict(streams=[EPOCH, LIFE], rule=PROV_RULE + "; Top-N consumers owned by gov with N in 50..100 (and invalid values), thresholds judged by Spec.Epoch.c03*",
+        assumptions=PROV_ASSUME + ["exactness of the threshold needs total power < 2*10^16 (LegacyDec rounds at 10^-18)"], fields=EPOCH_FIELDS),
+})
+PROPS["C04"]["streams"].append(EPOCH)
+PROPS["C04"]["fields"] = r"^powercap\.|" + EPOCH_FIELDS
+
 NOT_APPLICABLE = {}
 
 LEVEL_TEXT = {
+    "C02": "Theorems (Props/C02): soundness, key, power and completeness of the model's computeNextValidators for every staking view; active-set clause from the staking order. Tie: one-step correspondence of the epoch computation + Spec.Epoch.c02* on every set the implementation computed.",
+    "C03": "Theorems (Props/C03): the scan returns a member, reaches N %, no larger member does (exact arithmetic, total < 2*10^16). Tie: differential + Spec.Epoch.c03* at every epoch.",
+    "C01": "Theorems: apply_diff, accumulate_effect, applyCC_effect/engine, replication_block (any batching of packets in a consumer block ends at the provider's last set). Tie: differential run of DiffValidators/AccumulateChanges/ApplyCCValidatorChanges.",
+    "C10": "Theorems: phase edges only forward (edge_forward/path_forward), ids issued in order, queue consumption conserves/limits/only due, remove/delete preconditions. Tie: one-step correspondence of the lifecycle model + Spec.Prov clauses on every implementation state.",
+    "C13": "Theorems: lenKey_prefix_free, ownerOf_lenKey, prefixes distinct and iterator sites classified on REGENERATED tables. Tie: fact extractor + othersUntouched monitor.",
+    "C18": "Theorems: accumulate_order_independent (any map order, any correct sort); regenerated determinism-site table equals the audited list.",
     "C04": "Theorems (all inputs): same validators, every power <= max(1, floor(s*p/100)), total exactly preserved and nobody zero when feasible, "
            "strict order by power never inverted, all equal when infeasible; set cap: at most k, no excluded eligible validator outranks an included one. "
            "Tie to code: differential run of NoMoreThanPercentOfTheSum against the model and Spec on its outputs.",
